@@ -304,3 +304,33 @@ Proof.
     + eapply topo_perm; eauto.
     + eapply topo_order; eauto.
 Qed.
+
+(* ---------------------------------------------------------------- the hypothesis of doc_det, decided *)
+Lemma injb_ok key l : injb key l = true ->
+  forall x y, In x l -> In y l -> key x = key y -> x = y.
+Proof.
+  induction l as [|a l IH]; simpl; intros H x y Hx Hy E; [tauto|].
+  apply andb_true_iff in H as [H1 H2]. rewrite forallb_forall in H1.
+  assert (forall z, In z l -> key a = key z -> a = z) as HA.
+  { intros z Hz Ez. specialize (H1 z Hz). apply orb_true_iff in H1 as [H1|H1].
+    - apply Z.eqb_eq. auto.
+    - apply negb_true_iff in H1. apply text_eqb_neq in H1. contradiction. }
+  destruct Hx as [<-|Hx]; destruct Hy as [<-|Hy]; auto.
+  symmetry. apply HA; auto.
+Qed.
+
+Corollary doc_det_b perm1 perm2 a imp :
+  (forall l, Permutation (perm1 l) l) -> (forall l, Permutation (perm2 l) l) ->
+  imports_equiv (a_imports a) imp -> key_injb a = true ->
+  wsdl_of perm1 a = wsdl_of perm2 (with_imports a imp) /\
+  render perm1 a = render perm2 (with_imports a imp).
+Proof.
+  intros P1 P2 EQ INJ. apply doc_det_thm; auto. apply injb_ok. exact INJ.
+Qed.
+
+(** classes that toposort2 cannot tell apart are published under the same names:
+    the sort key has the namespace, the type name and the element name among its
+    components *)
+Lemma topo_key_names :
+  forallb (fun k => existsb (kcomp_eqb k) gen_topo_key) [KNamespace; KTypeName; KSubName] = true.
+Proof. reflexivity. Qed.
